@@ -729,6 +729,13 @@ func (r *cwRig) snapshot() (stepObs, cwSrvObs) {
 	nc, ns := r.link.InFlight()
 	so.DC = so.WC - nc
 	so.DS = so.WS - ns
+	if r.mode == "server" {
+		// the scripted client's envelopes are handed to the server's transport at once
+		r.mu.Lock()
+		so.WC = len(r.cliSent)
+		r.mu.Unlock()
+		so.DC = so.WC
+	}
 	return co, so
 }
 
@@ -1076,10 +1083,14 @@ func cwCensus() (muxLoops, streamLoops, serverSide int) {
 }
 
 // cwFindingTags: the shapes of the known findings, recognised from the run itself.
-//   reset-behind-backpressure: after a cancellation the server's read loop sits, at a quiescent
-//   point, in the forwarding select of processStreamingRpc holding the registry lock (its stream's
-//   queue is full and the handler is not reading): the reset that follows cannot be read.
+//
+//	reset-behind-backpressure: after a cancellation the server's read loop sits, at a quiescent
+//	point, in the forwarding select of processStreamingRpc holding the registry lock (its stream's
+//	queue is full and the handler is not reading): the reset that follows cannot be read.
 func cwFindingTags(recs []cwStepRec) []string {
+	if t := cwDeadlineTag(recs); t != "" {
+		return []string{t}
+	}
 	cancelled := false
 	for _, r := range recs {
 		for _, a := range r.Acts {
@@ -1092,4 +1103,41 @@ func cwFindingTags(recs []cwStepRec) []string {
 		}
 	}
 	return nil
+}
+
+// trailer-lost-on-handler-deadline: a handler returns after ITS OWN deadline (GRPC-Timeout) has expired while
+// the scripted caller has sent no reset and the connection is alive: SendTrailer's write is a select between
+// the expired context and the writer, so the trailer is dropped about half of the time.
+func cwDeadlineTag(recs []cwStepRec) string {
+	if len(recs) == 0 || recs[0].Step.Op != "cli" {
+		return ""
+	}
+	ticked := false
+	for i, r := range recs {
+		if r.Step.Op == "tick" {
+			ticked = true
+		}
+		if r.Step.Op == "srvfail" {
+			return ""
+		}
+		for _, e := range r.S.HEvents {
+			var c int
+			if _, err := fmt.Sscanf(e, "HReturn %d", &c); err == nil && ticked && i > 0 {
+				for _, h := range recs[i-1].S.HCtx {
+					if h == fmt.Sprintf("(%d, true)", c) {
+						reset := false
+						for _, q := range recs[:i+1] {
+							if q.Step.Op == "cli" && q.Step.Env.Rst && q.Step.Env.Call == c {
+								reset = true
+							}
+						}
+						if !reset && recs[0].Step.D > 0 {
+							return "sig:trailer-lost-on-handler-deadline"
+						}
+					}
+				}
+			}
+		}
+	}
+	return ""
 }
